@@ -255,6 +255,26 @@ func registerK8sIntrinsics(e *Engine) {
 		callSSA(i, nil, 0, m, []value{w.v, bs}, nil)
 		return iface{}
 	})
+	// text/template with sprig cannot be executed by the engine. Stub: a template without actions renders to itself,
+	// a template containing "{{" fails with a TemplateError. Harnesses only use such templates, for which the real
+	// transformer behaves the same way.
+	e.reg("(*package-operator.run/internal/controllers/objecttemplate.TemplateTransformer).transform", func(fr *frame, args []value) value {
+		i := fr.i
+		if b, ok := args[2].(*blob); ok {
+			return tuple{b, iface{}} // JSON text produced by json.Marshal in the harness: no template actions
+		}
+		content := args[2].([]value)
+		bs := make([]byte, len(content))
+		for k := range content {
+			bs[k] = content[k].(byte)
+		}
+		if strings.Contains(string(bs), "{{") {
+			t := i.namedType("package-operator.run/internal/controllers/objecttemplate", "TemplateError")
+			var cell value = structure{i.mkError("template: stub parse error")}
+			return tuple{[]value(nil), iface{t: types.NewPointer(t), v: &cell}}
+		}
+		return tuple{content, iface{}}
+	})
 	e.reg("k8s.io/client-go/util/flowcontrol.(*Backoff).GC", noop)
 	e.regPrefix("(*k8s.io/client-go/util/flowcontrol.Backoff).", noop)
 	// metrics recorders
